@@ -7,28 +7,41 @@ import nonls
 sys.path.insert(0, os.path.join(os.path.dirname(os.path.abspath(__file__)), '..', 'C03'))
 import protocol
 import precond_smt
+import penalty
+import armijo_smt
+import gs_smt
+import pen_evals_smt
 
 
 def build(tier):
     prox = protocol.targets(['NV_C02'])
     return {
-        'targets': common.targets(['NV_C02']) + statefns.targets() + nonls.targets() + prox, 'vcs': precond_smt.vcs(),
+        'targets': common.targets(['NV_C02']) + statefns.targets() + nonls.targets() + penalty.targets() + prox, 'vcs': precond_smt.vcs() + penalty.vcs() + armijo_smt.vcs() + gs_smt.vcs() + pen_evals_smt.vcs(),
         'decided': ['solver_t::done decision protocol; lsearch_t::get; do_minimize of gd / cgd-* / lbfgs / bfgs,dfp,sr1,hoshino,fletcher (17 solvers share these four bodies): status in {converged, max_iters, failed}; unless failed the returned state is valid (finite value and point); the reported (x, f, g) is one consistent evaluation; reported evaluation counts <= evaluations performed; the budget loop terminates and overshoots max_evals by at most one line search (<= 10*max_iterations evaluations, C07: CG_DESCENT alone may take 7*max_iterations+1)',
                     'contract refinement lemma: the C07 contract of lsearchk_t::get implies the contract the solvers rely on',
                     'solver_state_t::update_if_better (both overloads): isfinite(fx) && fx < m_fx <=> the triple (x, gx, fx) is stored (constraint values recomputed from it) and true is returned, otherwise the triple is unchanged; the best value never increases; both histories grow by exactly one and record a positive improvement exactly when the state was replaced (IEEE subtraction, not uninterpreted); value_test(patience) = its three documented cases for every history (loop contract, all indices in bounds); update_calls; valid() => finite value and point',
                     'solver_t::minimize: a dimension mismatch throws before any evaluation; the statistics are cleared before do_minimize (discharges the precondition nv_ver_counter == 0 of every body contract)',
-                    'do_minimize of sgm, ellipsoid, cocob, osga, pgm, dgm, fgm, asga2, asga4, sda/wda (pdsgm), fpba1/2 (+ its nesterov lambda), rqb, gs/ags/gs-lbfgs/ags-lbfgs (+ gsample::lsearch_t::step), and solver_penalty_t::minimize (linear / quadratic penalty): status in {converged, max_iters, failed}; the reported value (and sub-gradient, except osga which keeps the starting sub-gradient) is the function at the reported point -- vectors carry ghost identities, every possible write is accounted for from the AST (specs/solver/vectrack.py); reported counts <= evaluations performed (separate value / gradient counters); unless failed the value and the point are finite; ret.fx <= f(x0) for the update_if_better solvers; the budget loop terminates and overshoots max_evals by at most one outer iteration (inner trial loops bounded by their registered parameter domains); penalty: the reported value is the OBJECTIVE at the reported point',
+                    'do_minimize of sgm, ellipsoid, cocob, osga, pgm, dgm, fgm, asga2, asga4, sda/wda (pdsgm), fpba1/2 (+ its nesterov lambda), rqb, gs/ags/gs-lbfgs/ags-lbfgs (+ gsample::lsearch_t::step): status in {converged, max_iters, failed}; the reported value (and sub-gradient, except osga which keeps the starting sub-gradient) is the function at the reported point -- vectors carry ghost identities, every possible write is accounted for from the AST (specs/solver/vectrack.py); reported counts <= evaluations performed (separate value / gradient counters); unless failed the value and the point are finite; ret.fx <= f(x0) for the update_if_better solvers; the budget loop terminates and overshoots max_evals by at most one outer iteration (inner trial loops bounded by their registered parameter domains)',
+                    'the three constrained solvers (specs/C02/penalty.h): solver_penalty_t::minimize (the outer loop shared by linear-penalty / quadratic-penalty), solver_linear_penalty_t::do_minimize and solver_quadratic_penalty_t::do_minimize (construct the penalty function on `function`, call minimize), solver_augmented_lagrangian_t::do_minimize: status in {converged, max_iters, failed}; the reported (x, fx, gx) is one evaluation of the ORIGINAL objective at the reported point (not of the penalised function), the stored constraint values were recomputed at that point, the reported counters are the objective\'s and <= its evaluations performed; unless failed the value and the point are finite; the outer loop terminates (max_outer_iters - outer decreases)',
+                    'inner solves of the constrained solvers through the contract PROVED here for solver_t::minimize (target solver_minimize_inner, used with replace=): a dimension mismatch throws before any evaluation, otherwise the statistics of the function handed in are cleared and the virtual body runs once under its precondition; solver_t::more_precise changes solver::epsilon only; ::make_solver<lbfgs|osga> / solver_t::make_solver return a solver whose solver::max_evals is the value handed in',
+                    'one evaluation of a penalty / augmented-Lagrangian function is exactly one evaluation of the objective with the caller\'s own point and gradient buffer (back end B on penalty_vgrad<op> x2, augmented_lagrangian_function_t::do_vgrad, and the two forwarding do_vgrad bodies of src/function/penalty.cpp): the link between the objective\'s and the penalty function\'s counters that the budget ledger uses',
+                    'budget of the constrained solvers, per outer iteration: exactly one inner solve per outer iteration (at most max_outer_iters of them), every one with the OUTER solver::max_evals (made once, only epsilon is changed afterwards), each costing the objective fcalls+gcalls < max_evals + 2*NV_LS_MAX_EVALS + 2 (one outer iteration of the inner solver), plus at most one evaluation of the objective by the outer loop itself: fcalls + gcalls <= 2 + n*(max_evals + 2*NV_LS_MAX_EVALS + 3) after n outer iterations (ghost ledger in CBMC + induction lemma over Int); the total is NOT bounded by max_evals: the code hands the full max_evals to every inner solve',
+                    'f <= f0 for gd / cgd-* / lbfgs / quasi-Newton with an Armijo-exit line search (backtrack, LeMarechal, More-Thuente, Fletcher; ghost kind flag nv_ls_armijo_exit, false for CG_DESCENT): (i) lemmas over the reals: Armijo (the formula C07 proves equal to has_armijo) with t > 0, c1 > 0 and a descent direction is a strict decrease, the approximate Armijo rule admits at most epsilon per step, chain induction; (ii) lsearchk_t::get / the virtual do_get of C07 export "success => Armijo evaluated true on the returned state against the entry state with the returned step and c1" under the kind flag (C07 re-proved); (iii) refinement lemma: that contract plus the imported facts gives "success => new value finite and <= value on entry", lsearch_t::get passes it on; (iv) loop contracts of the four bodies: every accepted iterate (cstate and pstate) is finite and <= f(x0) (ghost nv_ls_f0 recorded when the first state is built); returned state with status max_iters => fx <= f(x0)',
+                    'returned state with status converged => fx <= f(x0) for the same four bodies, through the strengthened contract of solver_t::done: status converged => iter_ok (and valid), !iter_ok => failed, converged && iter_ok && valid => converged.  REPAIRED DEFECT (specs/C02/FINDING_failed_lsearch_converged.md, `fixed:` line in known_findings.txt): before the repair `(converged && step_ok)` a FAILED line search left the state at its last trial point and done(state, iter_ok = false, converged = true) reported converged (smooth quartic, backtracking with max_iterations = 1: converged at a local maximum 2.34 above the start; replay/C02_failed_lsearch_converged.cpp); on the unrepaired solver.cpp solver_done.postcondition.6 / .7 are refuted (the bodies use done() by contract)',
                     'f <= f0 mechanism of the gradient sampling solvers, over the reals (SMT): lbfgs_preconditioner_t::update(sampler, state, epsilon) leaves W and H positive definite (restart from (1/miu) I, miu I with miu > 0; a curvature pair is admitted only with d.y >= gamma*epsilon > 0), update(alpha) keeps miu > 0, the identity preconditioner is never modified; gsample::lsearch_t::step with a positive semi-definite H moves the state only to a point of strictly smaller value (both loops, deterministic function along the ray)',
+                    'composition inside base_solver_gs_t::do_minimize (back end B over the reals, real body, instantiation <fixed_sampler_t, lbfgs_preconditioner_t>): the sampling radius handed to precond.update(sampler, state, epsilonk) is > 0 at every call (epsilon0 > 0 and theta_epsilon in (0, 1] by their registered domains, read from the constructor on every run; loop invariant epsilonk > 0), and lsearch.step is handed H() of the very preconditioner object updated with that radius on every path of the same iteration; no other statement of the body moves the state',
                     'f <= f0 mechanism of RQB: csearch_t::search reports descent_step / cutting_plane_step / null_step only for a trial that passed the corresponding tests in this call (sufficient descent f(centre) - fy >= m1*delta for the serious steps), and solver_rqb_t::do_minimize moves its state only to such a trial of the last search'],
-        'not_decided': ['f <= f0 for the line-search solvers (Armijo arithmetic); for RQB the last step delta >= 0 (erased numerics); for the gradient sampling solvers the composition needs the sampling radius epsilonk > 0 at every preconditioner update (a product of positive reals in do_minimize, not extracted) and that do_minimize hands the preconditioner\'s own H to the line search', 'the numeric overshoot bound 1100+8n (the proved bounds are per outer iteration in evaluations, see NV_NONLS_ENSURES)',
-                        'solver_augmented_lagrangian_t (C05 proves its outer loop), do_minimize of the two penalty solvers (two lines: construct the penalty function, call minimize)',
-                        'budget of the penalty solvers (per inner solve: the inner solver is used through an assumed contract)'],
-        'assumptions': ['solver_state_t{function, x0} and state.update(x) are one evaluation at the given point; function_t::fcalls()/gcalls() count exactly those evaluations (assumed contracts)',
+        'not_decided': ['f <= f0 for the line-search solvers paired with CG_DESCENT (its approximate-Wolfe exit admits an increase of epsilon per step; the cumulative allowance 5e-4*(1+|f|) of the statement is not derived), and in IEEE arithmetic (the Armijo step is a lemma over the reals); for RQB the last step delta >= 0 (erased numerics); for the gradient sampling solvers the pieces are now composed inside do_minimize (gs_do_minimize_radius) but the chain f <= f0 over the iterations is not stated as one obligation, and the sampler / adaptive-sampler instantiations other than <fixed_sampler_t, lbfgs_preconditioner_t> are not walked', 'the numeric overshoot bound 1100+8n (the proved bounds are per outer iteration in evaluations, see NV_NONLS_ENSURES)',
+                        'constrained solvers: an exception escaping from solver_t::more_precise / parameter assignment (epsilon leaving its domain, DESIGN 11.3) ends the run without a state: every clause is conditional on no exception',
+                        'gs_do_minimize is extracted for the instantiation <fixed_sampler_t, identity_preconditioner_t> of base_solver_gs_t::do_minimize; ags / gs-lbfgs / ags-lbfgs share the template body but their instantiations are not extracted separately; every other registered solver id of src/solver.cpp has a body target'],
+        'assumptions': ['f <= f0 chain (specs/solver/refine.h imports, each proved elsewhere or listed here): valid() => finite value (C02 state_valid); a successful line search returns a step > 0 (C07 lsearchk_get_ieee given the do_get clause, step/ over the reals for backtrack / LeMarechal / Fletcher; for More-Thuente it rests on its stpmin clamp, not re-proved here); has_armijo is its formula (C07 pred/has_armijo) and implies a decrease (lemma/armijo_decrease, double treated as real); the ghost kind flag nv_ls_armijo_exit: virtual dispatch of do_get reaches an implementation whose proved contract has the Armijo exit (backtrack, LeMarechal, Fletcher: CBMC contracts of C07; More-Thuente: advertised/morethuente_do_get over the reals)',
+                        'solver_state_t{function, x0} and state.update(x) are one evaluation at the given point; function_t::fcalls()/gcalls() count exactly those evaluations (assumed contracts)',
                         'all vector algebra of the solvers is erased (listed per run under dropped_statements); erased expressions are checked to have no side effect on modelled objects',
                         'the function is a deterministic map from points to values (prophecy field fval of a vector identity) and is non-finite at non-finite points (DESIGN 7, C02)',
                         'assumed contracts transcribed from proved ones: state.update_if_better (specs/C02/state.h -> nv_state_uib), bundle_t::moveto/append/solve/econverged/sconverged and the bundle constructor (specs/C03/bundle.h -> protocol view nv_pb_*), state.update(x, gx, fx) stores the triple as given',
                         'erased callees are pure by signature: asga solve_sk1 / lsearch_done, osga proxy_t, pdsgm model_t, proximity_t, nesterov_sequence_t, gsample sampler / preconditioner / perturbation (sampler.sample evaluates the function between 1 and 2n times with gradients)',
-                        'the inner solver of the penalty methods returns a state of the penalty function: nothing about the objective is assumed of it',
+                        'constrained solvers: virtual dispatch of do_minimize inside solver_t::minimize reaches one of the verified bodies (lbfgs / osga, the two make_solver can select); what such a body guarantees (NV_ENSURES_C02 / NV_NONLS_ENSURES) is restated over the parameters of the inner solver object and the counters of the function object handed in (nv_do_minimize_virtual, specs/C02/penalty.h); the returned state is a state of the penalty function: nothing about the objective is assumed of it',
+                        'constrained solvers: the penalty function has the objective\'s dimension and bstate.x() the dimension of x0; parameter_t::operator= stores an in-domain value and throws otherwise (C19); the ghost nv_fg (fcalls+gcalls of the objective) is bumped by every stub that models evaluations together with the two counters',
                         'linear algebra behind the ghost flag positive definite (specs/C02/precond_smt.py): s*I is positive definite iff s > 0; the BFGS / DFP update statements of lbfgs_preconditioner_t::update keep W and H positive definite when every scalar they divide by (d.y) is positive; g.H.g >= 0 for a positive semi-definite H; double treated as real in these VCs'],
         'trusted': [],
     }
@@ -63,4 +76,10 @@ def replay(rp):
     rc, so, se = replaylib.run_driver(exe, [])
     out['runs'].append({'exit': rc, 'output': so.strip()[:3000]})
     out['reproduced'] = rc == 1
+    # "a failed iteration is never converged" (solver_done postconditions 6 / 7, f <= f0 of the four line-search bodies): smooth quartic,
+    # backtracking with max_iterations = 1: the left-over trial state of the failed line search is a local maximum above f(x0)
+    exe = replaylib.build_with_library('replay/C02_failed_lsearch_converged.cpp', 'C02_failed_lsearch_converged')
+    rc, so, se = replaylib.run_driver(exe, [])
+    out['runs'].append({'driver': 'C02_failed_lsearch_converged', 'exit': rc, 'output': so.strip()[:3000]})
+    out['reproduced'] = out['reproduced'] or rc == 1
     return out
